@@ -85,7 +85,7 @@ class RevolveCheckpointSchedule(CheckpointSchedule):
                         raise InvalidActionIndex
                     write_ics = True
                     adj_deps = False
-                    snapshots.add(w_n0)
+                    snapshots.add((w_storage, w_n0))
                 elif (w_cp_action == "Write_Forward"
                       or w_cp_action == "Write_Forward_memory"):
                     if w_n0 != n_1:
@@ -112,8 +112,8 @@ class RevolveCheckpointSchedule(CheckpointSchedule):
                   or cp_action == "Read_memory"
                   or cp_action == "Read_disk"):
                 self._n = n_0
-                if n_0 == self._max_n - self._r - 1:
-                    snapshots.remove(n_0)
+                if self._is_last_read(i, storage, n_0):
+                    snapshots.remove((storage, n_0))
                     yield Move(n_0, storage, StorageType.WORK)
                 else:
                     yield Copy(n_0, storage, StorageType.WORK)
@@ -151,6 +151,21 @@ class RevolveCheckpointSchedule(CheckpointSchedule):
             raise RuntimeError("Unexpected snapshot number.")
         self._exhausted = True
         yield EndReverse()
+
+    def _is_last_read(self, i, storage, n_0):
+        """Whether the read at position `i` of the sequence is the last use of
+        the checkpoint of step `n_0` held in `storage`, i.e. no later operation
+        reads it before it is written again.
+        """
+        for action in self._schedule[i + 1:]:
+            cp_action, (n, _, cp_storage) = _convert_action(action)
+            if n != n_0 or cp_storage != storage:
+                continue
+            if cp_action in ("Read", "Read_memory", "Read_disk"):
+                return False
+            if cp_action in ("Write", "Write_memory", "Write_disk"):
+                return True
+        return True
 
     @property
     def is_exhausted(self):
